@@ -27,7 +27,13 @@ pub fn finish_body(mut f: Flow<(), SendBody>) -> Option<Flow<(), RecvResponse>> 
 pub fn to_recv_response(f: Flow<(), Prepare>) -> Option<Flow<(), RecvResponse>> {
     let mut buf = vec![0u8; 16384];
     let mut f = f.proceed();
-    guarded(|| f.write(&mut buf))?.ok()?;
+    // an implementation may hand out the head in several calls even into a big buffer
+    for _ in 0..400 {
+        if guarded(|| f.can_proceed())? {
+            break;
+        }
+        guarded(|| f.write(&mut buf))?.ok()?;
+    }
     match guarded(|| f.proceed())?.ok()?? {
         SendRequestResult::RecvResponse(f) => Some(f),
         SendRequestResult::SendBody(f) => finish_body(f),
@@ -48,12 +54,23 @@ pub fn call_recv_response(method: &str) -> Call<CRecvResponse, ()> {
     let req = simple_request(method, "http://h.test/p");
     if needs_body(method) {
         let mut c = Call::with_body(req).unwrap();
-        c.write(&[], &mut buf).unwrap();
-        c.write(&[], &mut buf).unwrap();
+        let mut acc: Vec<u8> = vec![];
+        for _ in 0..400 {
+            let (_, n) = c.write(&[], &mut buf).unwrap();
+            acc.extend(&buf[..n]);
+            if c.is_finished() {
+                break;
+            }
+        }
         c.into_receive().expect("harness: call into_receive")
     } else {
         let mut c = Call::without_body(req).unwrap();
-        c.write(&mut buf).unwrap();
+        for _ in 0..400 {
+            if c.is_finished() {
+                break;
+            }
+            c.write(&mut buf).unwrap();
+        }
         c.into_receive().expect("harness: call into_receive")
     }
 }
